@@ -1094,7 +1094,19 @@ impl Gen {
             // EXIT trap and errexit are set up front in most scripts
             let mut first = vec![];
             if self.rng.chance(2, 3) {
-                let body = vec![Item(Pipeline(false, vec![Cmd::Probe(99)]), vec![])];
+                let mut body = vec![Item(Pipeline(false, vec![Cmd::Probe(99)]), vec![])];
+                if self.rng.chance(1, 4) {
+                    // the action itself ends with a failing command, an error or an exit
+                    let tail = match self.rng.below(6) {
+                        0 => Cmd::ExpErr,
+                        1 => Cmd::AssignErr,
+                        2 => Cmd::St(1 + self.rng.below(4) as u32),
+                        3 => Cmd::Exit(Some(self.rng.below(7) as u32)),
+                        4 => Cmd::SpecErr(false, 1 + self.rng.below(2) as u32),
+                        _ => Cmd::Exit(None),
+                    };
+                    body.push(Item(Pipeline(false, vec![tail]), vec![]));
+                }
                 first.push(Item(Pipeline(false, vec![Cmd::TrapExit(body)]), vec![]));
             }
             if self.rng.chance(1, 2) {
